@@ -16,6 +16,7 @@ import (
 	"github.com/cloudwego/hertz/pkg/app"
 	"github.com/cloudwego/hertz/pkg/app/middlewares/server/recovery"
 	"github.com/cloudwego/hertz/pkg/common/config"
+	"github.com/cloudwego/hertz/pkg/network"
 	"github.com/cloudwego/hertz/pkg/protocol"
 	"github.com/cloudwego/hertz/pkg/route"
 )
@@ -384,6 +385,13 @@ func (s *c09srv) engine() *routeEngine {
 			if parts[1] == "PANIC" {
 				panic("handler panic")
 			}
+			if parts[0] == "conn" { // an event of the connection, not of the handler
+				continue
+			}
+			if parts[1] == "HIJACK" {
+				ctx.Hijack(func(network.Conn) {})
+				continue
+			}
 			c09Apply(target, parts[1], seed)
 		}
 	})
@@ -434,7 +442,15 @@ func init() {
 			// keep-alive: mutate then probe on the same connection
 			ka := &c09srv{progs: progs}
 			e := ka.engine()
-			serveScript(e, newScriptConn([][]byte{[]byte(wire + c09ProbeReq)}))
+			kaConn := newScriptConn([][]byte{[]byte(wire + c09ProbeReq)})
+			for i := range in {
+				// "conn:WRITEFAIL:<n>": the peer is gone after n response bytes; Serve leaves through its error
+				// paths and the context goes back to the pool from there
+				if strings.HasPrefix(in.S(i), "conn:WRITEFAIL:") {
+					fmt.Sscanf(strings.Split(in.S(i), ":")[2], "%d", &kaConn.writeErrAfter)
+				}
+			}
+			serveScript(e, kaConn)
 			if ka.probe != "" && ka.probe != base.probe {
 				fs = append(fs, Finding{Kind: "oracle", Unit: "c09.server", Class: "probe-differs-on-keepalive-connection", Impl: ka.probe, Expect: base.probe, Note: c09FirstDiff(ka.probe, base.probe)})
 			}
@@ -458,9 +474,17 @@ func init() {
 					all = append(all, tg.name+":"+m)
 				}
 			}
-			all = append(all, "ctx:Exile", "ctx:PANIC")
+			all = append(all, "ctx:Exile", "ctx:PANIC", "ctx:HIJACK")
 			for _, m := range all {
 				t.Do(In{S(m + ":1")}, true)
+				// the same when the response cannot be written (the error paths of Serve recycle the context too)
+				t.Do(In{S(m + ":1"), S("conn:WRITEFAIL:0")}, true)
+			}
+			for _, n := range []int{0, 1, 20, 60} {
+				for _, sh := range []string{"get", "chunked", "cl", "form"} {
+					t.Do(In{S("NEXT:" + sh + ":0"), S("ctx:HIJACK:1"), S(fmt.Sprintf("conn:WRITEFAIL:%d", n))}, true)
+					t.Do(In{S("NEXT:" + sh + ":0"), S("resp:SetBodyString:7"), S(fmt.Sprintf("conn:WRITEFAIL:%d", n))}, true)
+				}
 			}
 			// histories of request shapes alone (read-only handlers): every sequence of up to three
 			shapes := []string{"get", "chunked", "cl", "cl0", "form"}
@@ -495,6 +519,9 @@ func init() {
 						continue
 					}
 					in = append(in, S(fmt.Sprintf("%s:%d", all[t.R.Intn(len(all))], t.R.Intn(50))))
+				}
+				if t.R.Intn(6) == 0 {
+					in = append(in, S(fmt.Sprintf("conn:WRITEFAIL:%d", []int{0, 0, 30, 100, 400}[t.R.Intn(5)])))
 				}
 				t.Do(in, true)
 			}
